@@ -38,6 +38,26 @@ pub fn gen_call(rng: &mut Rng, class: MClass) -> Option<BOp> {
     })
 }
 
+/// Workload post-pass shared by the Builder properties: one call in eight re-issues the METHOD of an earlier call of
+/// the same class, with an argument seed that makes `Drv::near_repeat` replay that call's arguments (identically or
+/// with one operand changed).  Two related calls of one method in one history become common.
+pub fn repeat_methods(rng: &mut Rng, ops: &mut [BOp]) {
+    let bs = bindings();
+    let class_of = |m: &str| bs.by_name.get(m).map(|i| bs.all[*i].class);
+    let mut earlier: Vec<(String, Option<MClass>)> = vec![];
+    for op in ops.iter_mut() {
+        if let BOp::Call { method, arg_seed, .. } = op {
+            let cls = class_of(method.as_str());
+            let same: Vec<&String> = earlier.iter().filter(|(_, c)| *c == cls).map(|(m, _)| m).collect();
+            if !same.is_empty() && rng.chance(1, 8) {
+                *method = (*rng.pick(&same)).clone();
+                *arg_seed = rng.next() / 3 * 3 + 1;
+            }
+            earlier.push((method.clone(), cls));
+        }
+    }
+}
+
 fn gen_op(rng: &mut Rng) -> BOp {
     loop {
         let op = match rng.below(40) {
@@ -408,6 +428,7 @@ impl Property for C12 {
             }
             ops.push(op);
         }
+        repeat_methods(rng, &mut ops);
         Trace { ops }
     }
 
